@@ -104,23 +104,50 @@ def run_digitize(case, ctx):
             ctx.hit("asan.digitize" if asan else "digitize." + direction)
             exp = numpy.digitize(x, bins, right=True)
             if kind == "regular" and n <= 12:
-                # integer-valued edges given as an integer array, queried with integer and float32 points
-                ib = (numpy.arange(n) * 3 - 5).astype(numpy.int64)
-                if direction == "descending":
-                    ib = ib[::-1].copy()
-                ix = numpy.arange(ib.min() - 2, ib.max() + 3).astype(numpy.int64)
-                for qname, q in (("int64", ix), ("float32", ix.astype(numpy.float32)), ("float64", ix.astype(float))):
+                # integer-valued edges given as integer arrays of every width and signedness, as a list and as a
+                # reversed view, queried with integer and float points
+                for bdt in ("int64", "int32", "int16", "int8", "uint8", "uint16", "uint32", "uint64", "float32", "list",
+                            "view"):
+                    ib = numpy.arange(n) * 3 + 2
+                    if not bdt.startswith("u"):
+                        ib = ib - 7
+                    ib = ib.astype(numpy.int64 if bdt in ("list", "view") else bdt)
+                    if direction == "descending":
+                        ib = ib[::-1] if bdt == "view" else ib[::-1].copy()
+                    elif bdt == "view":
+                        ib = numpy.concatenate([ib, ib])[::2][:n] if n == 1 else ib[::-1][::-1]
+                    ix = numpy.arange(int(ib.min()) - 2, int(ib.max()) + 3).astype(numpy.int64)
+                    arg = ib.tolist() if bdt == "list" else ib
+                    for qname, q in (("int64", ix), ("float32", ix.astype(numpy.float32)), ("float64", ix.astype(float))):
+                        try:
+                            ti = digitize2tree(arg, right=True)
+                            pi = ti.predict(q.reshape(-1, 1))
+                            ctx.hit("digitize.integer_containers")
+                            ei = numpy.digitize(q, numpy.asarray(ib, dtype=numpy.int64), right=True)
+                            if not numpy.array_equal(pi, ei):
+                                ctx.violation(K + "differs-from-numpy/integer-bins/%s" % bdt,
+                                              "%s bins %r (%s), %s points: tree %r, numpy %r" % (
+                                                  bdt, ib[:4].tolist(), direction, qname, pi[:6].tolist(),
+                                                  ei[:6].tolist()), cfg=cfg)
+                                break
+                        except Exception as e:
+                            ctx.violation(K + "raised/%s/integer-bins/%s" % (type(e).__name__, bdt), str(e)[:150],
+                                          cfg=cfg)
+                            break
+                if n == 2:
+                    # a step wider than half the range of a small integer type
+                    wb = numpy.array([-100, 100] if direction == "ascending" else [100, -100], dtype=numpy.int8)
+                    qw = numpy.array([-120.0, -100.0, 0.0, 100.0, 120.0])
                     try:
-                        ti = digitize2tree(ib, right=True)
-                        pi = ti.predict(q.reshape(-1, 1))
+                        pw = digitize2tree(wb, right=True).predict(qw.reshape(-1, 1))
                         ctx.hit("digitize.integer_containers")
-                        ei = numpy.digitize(q, ib, right=True)
-                        if not numpy.array_equal(pi, ei):
-                            ctx.violation(K + "differs-from-numpy/integer-bins/%s" % qname,
-                                          "integer bins %r, %s points: tree %r, numpy %r" % (
-                                              ib[:4].tolist(), qname, pi[:6].tolist(), ei[:6].tolist()), cfg=cfg)
+                        ew = numpy.digitize(qw, wb.astype(numpy.int64), right=True)
+                        if not numpy.array_equal(pw, ew):
+                            ctx.violation(K + "differs-from-numpy/integer-bins/int8-wide-step", "int8 bins %r: tree %r, "
+                                          "numpy %r" % (wb.tolist(), pw.tolist(), ew.tolist()), cfg=cfg)
                     except Exception as e:
-                        ctx.violation(K + "raised/%s/integer-bins" % type(e).__name__, str(e)[:150], cfg=cfg)
+                        ctx.violation(K + "raised/%s/integer-bins/int8-wide-step" % type(e).__name__, str(e)[:150],
+                                      cfg=cfg)
             if pred.shape != exp.shape or not numpy.array_equal(pred, exp):
                 bad = numpy.where(pred != exp)[0]
                 j = int(bad[0])
@@ -189,6 +216,7 @@ def make_tree(rng):
         y = (y > numpy.median(y)).astype(int)
         m = DecisionTreeClassifier(max_leaf_nodes=int(rng.randint(2, 20)), random_state=0)
     m.fit(X, y)
+    m._verif_y = y
     return m, X, kind, depth
 
 
@@ -205,9 +233,24 @@ def in_box(box, Q):
 
 
 def run_tree(case, ctx):
-    from mlinsights.mltree import predict_leaves, tree_leave_index, tree_node_range
     rng = numpy.random.RandomState(case["sub"] % (2 ** 31))
     m, X, kind, depth = make_tree(rng)
+    check_tree(case, ctx, rng, m, X, kind, depth, "")
+    # the same estimator object fitted again (reversed targets keep the number of leaves and move them; other
+    # rows change everything): the helpers describe the tree the model holds now
+    y = m._verif_y
+    if case["sub"] % 2:
+        m.fit(X, y[::-1].copy())
+    else:
+        keep = rng.rand(len(X)) < 0.6
+        if keep.sum() >= 3:
+            m.fit(X[keep], y[keep])
+    ctx.hit("refit_history")
+    check_tree(case, ctx, rng, m, X, kind, depth, "/after-refit")
+
+
+def check_tree(case, ctx, rng, m, X, kind, depth, suffix):
+    from mlinsights.mltree import predict_leaves, tree_leave_index, tree_node_range
     t = m.tree_
     d = X.shape[1]
     cfg = {"tree": kind, "max_depth": depth, "n_features": d, "n_nodes": int(t.node_count), "sub": case["sub"]}
@@ -226,25 +269,26 @@ def run_tree(case, ctx):
     Q = f32(numpy.vstack(Q))
     app = m.apply(Q)
     K = "C12/"
+    S = suffix
     # predict_leaves == apply
     try:
         pl = predict_leaves(m, Q)
         ctx.hit("predict_leaves")
         if not numpy.array_equal(numpy.asarray(pl), app):
-            ctx.violation(K + "predict_leaves/differs-from-apply", "%d of %d rows get another leaf than apply" % (
+            ctx.violation(K + "predict_leaves/differs-from-apply" + S, "%d of %d rows get another leaf than apply" % (
                 int((numpy.asarray(pl) != app).sum()), len(app)), cfg=cfg)
     except Exception as e:
         ctx.hit("predict_leaves")
-        ctx.violation(K + "predict_leaves/raised/%s" % type(e).__name__, "%s: %s" % (type(e).__name__, e), cfg=cfg)
+        ctx.violation(K + "predict_leaves/raised/%s" % type(e).__name__ + S, "%s: %s" % (type(e).__name__, e), cfg=cfg)
     # tree_leave_index == {i: children_left[i] == -1}
     leaves = [int(i) for i in numpy.where(t.children_left == -1)[0]]
     try:
         li = [int(i) for i in tree_leave_index(m)]
         ctx.hit("leave_index")
-        ctx.check(li == leaves, K + "tree_leave_index/wrong", "tree_leave_index=%r, leaves=%r" % (li[:8], leaves[:8]),
+        ctx.check(li == leaves, K + "tree_leave_index/wrong" + S, "tree_leave_index=%r, leaves=%r" % (li[:8], leaves[:8]),
                   cfg=cfg)
         li2 = [int(i) for i in tree_leave_index(t)]
-        ctx.check(li2 == leaves, K + "tree_leave_index/wrong", "tree_leave_index(tree_) differs", cfg=cfg)
+        ctx.check(li2 == leaves, K + "tree_leave_index/wrong" + S, "tree_leave_index(tree_) differs", cfg=cfg)
     except Exception as e:
         ctx.hit("leave_index")
         ctx.violation(K + "tree_leave_index/raised/%s" % type(e).__name__, "%s: %s" % (type(e).__name__, e), cfg=cfg)
@@ -268,10 +312,12 @@ def run_tree(case, ctx):
             a = int((inside & ~routed).sum())
             b = int((~inside & routed).sum())
             builder = "best-first" if kind.startswith("bestfirst") else "depth-first"
-            ctx.violation(K + "tree_node_range/box-differs-from-routing/%s" % builder,
+            ctx.violation(K + "tree_node_range/box-differs-from-routing/%s" % builder + S,
                           "leaf %d: %d points inside the box are routed elsewhere, %d routed points are outside" % (
                               leaf, a, b), cfg=cfg, box=box)
             break
+    if suffix:
+        return
     if len(leaves) >= 3:
         ctx.nontriv("tree", cfg)
     ctx.sample({"cfg": cfg, "n_query_points": int(len(Q)), "n_leaves": len(leaves)})
